@@ -11,7 +11,8 @@ PROPERTY = "C10"
 RULE = ("exhaustive: base histories = construct a; b = a[sel1]; optionally c = b[sel2] or d = ufunc(a); 0..2 writes to a / b / c "
         "(row, element, column-range assignments) x every insertion position x every array in scope x every kind of read "
         "(repr, str, tolist, iter, ravel, integer row, row slice, column slice, element, ufunc, row reduction, full reduction, "
-        "concatenate, nonzero, astype, col_counts, equals). non-trivial = the inserted read targets an array that shares a "
+        "concatenate, nonzero, astype, col_counts, equals); the history ends with a read of its own (row sums / element / integer row / "
+        "integer column / reversed column slice / tolist / row slice, rotating) whose result is part of the outcome. non-trivial = the inserted read targets an array that shares a "
         "buffer with another array (a selection or its source) and a write follows it")
 BOUNDS = {"quick": {"shapes": [[0, 2, 1], [3, 0, 2]], "writes": "<= 2 of {a.row0, a.col0, b.row0, b.col0, c.row0}",
                     "reads": "10 kinds"},
@@ -31,7 +32,12 @@ Q_WRITES = [0, 1, 3, 4, 5]
 Q_READS = ["repr", "tolist", "ravel", "int_row", "col_slice", "element", "ufunc", "row_sum", "concatenate", "int_col"]
 
 
+OWN_READS = ["row_sum", "element", "int_row", "int_col", "col_slice", "tolist", "row_slice"]
+_COUNTER = [0]
+
+
 def base_programs(tier):
+    _COUNTER[0] = 0
     for shape in BOUNDS[tier]["shapes"]:
         for s1 in SEL1:
             for s2 in SEL2:
@@ -48,7 +54,10 @@ def base_programs(tier):
                             prog.append(["sel", "c", "b", s2])
                         for w in ws:
                             prog.append(["write", WRITES[w][0], WRITES[w][1]])
-                        prog.append(["own_read", "b"])
+                        # the history's own final read: its kind and target rotate over the programs
+                        _COUNTER[0] += 1
+                        tgt = "c" if (s2 is not None and _COUNTER[0] % 2) else "b"
+                        prog.append(["own_read", tgt, OWN_READS[_COUNTER[0] % len(OWN_READS)]])
                         yield prog
 
 
@@ -167,7 +176,11 @@ def run(prog, inserts):
             if op[1] in env:
                 do_write(env[op[1]], op[2])
         elif op[0] == "own_read":
-            log.append(do_read(env[op[1]], "row_sum"))
+            if op[1] in env:
+                try:
+                    log.append(do_read(env[op[1]], op[2] if len(op) > 2 else "row_sum"))
+                except IndexError as e:
+                    log.append("IndexError")
         for ipos, tgt, kind in inserts:
             if ipos == pos and tgt in env:
                 do_read(env[tgt], kind)        # result discarded: an *extra* read
